@@ -2,7 +2,8 @@
    (the network of endpoints, all delivery orders and all iteration orders). *)
 From Coq Require Import List Arith Bool PeanoNat.
 From Icv Require Import Route.RtModel Route.RtProofs Route.RtObs Route.RtOracleProofs Route.RtStepLemmas Route.RtLoad
-     Route.RtNet Route.RtFamilies Route.RtSched Route.RtNetSound Route.RtNetProofs.
+     Route.RtNet Route.RtFamilies Route.RtSched Route.RtNetSound Route.RtNetProofs
+     Route.RtInv Route.RtChain Route.RtChainSafe Route.RtChainComplete.
 Import ListNotations.
 
 (* ---- one relay step: ALL zone configurations, views, origins, iteration orders (unbounded) ---- *)
@@ -174,6 +175,66 @@ Proof.
            (rt_global_all_ok c links s H1 H2 H3 H4)).
 Qed.
 Print Assumptions C11_global_trees.
+
+(* ================= UNBOUNDED: chains of ARBITRARY depth (no bound on depth, steps, names, links) =================
+   rt_chain_wf c: zone 0 is the top, zone z+1 the child of zone z, no global zone, at most two endpoints per zone (the
+   property's bound), every endpoint in one zone; endpoint names arbitrary.  links: ANY list of pairs (rt_view makes
+   connectivity symmetric - a TCP connection has two ends).  Every target zone, every originator (also below the
+   target), every per-node iteration order, every run of the relation. *)
+
+(* the two endpoints of a zone that see each other elect the same master (needs <= 2 endpoints + symmetry) *)
+Theorem C11_master_agree : forall c z links a b,
+  (forall e, In e (rt_eps c z) -> e = a \/ e = b) ->
+  In a (rt_eps c z) -> In b (rt_eps c z) -> In b (rt_view links a) ->
+  rt_master c z a (rt_view links a) = rt_master c z b (rt_view links b).
+Proof. exact rt_master_agree. Qed.
+Print Assumptions C11_master_agree.
+
+(* the invariant and the measure: in-flight messages are well-formed and the future sets (rt_fut) of the in-flight
+   messages and the processed set are pairwise disjoint; every delivery processes at a fresh endpoint, preserves the
+   invariant and strictly decreases rt_chain_measure = total size of the future sets *)
+Theorem C11_chain_inv_step : forall c links T nord,
+  rt_chain_wf c -> T < length c -> rt_nord_ok c nord ->
+  forall st np st', rt_chain_inv c links T st -> rt_sched_step rt_msg (rt_effect c links T nord) st np st' ->
+    rt_fresh np (snd st) = true /\ rt_chain_inv c links T st' /\ rt_chain_measure c links T st' < rt_chain_measure c links T st.
+Proof. exact rt_chain_inv_step. Qed.
+Print Assumptions C11_chain_inv_step.
+
+(* (a)+(b): every run from the originating relay has fewer deliveries than there are endpoints (hence fewer than
+   rt_fuel c), and no delivery makes an endpoint process the event a second time *)
+Theorem C11_finite_once_unbounded : forall c links target s lz nord,
+  rt_chain_wf c -> target < length c -> rt_zone_of c s = Some lz -> rt_nord_ok c nord ->
+  forall k st', rt_sched_run rt_msg (rt_effect c links target nord) (rt_init c links target nord s lz) k st' ->
+    k < length (flat_map rt_zeps c) /\ k < rt_fuel c /\
+    (forall np st'', rt_sched_step rt_msg (rt_effect c links target nord) st' np st'' -> rt_fresh np (snd st') = true).
+Proof. exact rt_chain_finite_once_run. Qed.
+Print Assumptions C11_finite_once_unbounded.
+
+(* (c): whenever such a run has nothing in flight any more, the originator is in an entitled zone and the connectivity
+   premise holds over the entitled zones, every endpoint of every entitled zone has processed the event
+   (rt_final_complete) - exactly once by C11_finite_once_unbounded *)
+Theorem C11_complete_unbounded : forall c links target nord s lz,
+  rt_chain_wf c -> target < length c -> rt_nord_ok c nord -> rt_zone_of c s = Some lz ->
+  forall k st', rt_sched_run rt_msg (rt_effect c links target nord) (rt_init c links target nord s lz) k st' ->
+    fst st' = [] -> rt_final_complete c links target lz (snd st') = true.
+Proof. exact rt_chain_complete. Qed.
+Print Assumptions C11_complete_unbounded.
+
+(* non-vacuity: the chain of depth 6 with two endpoints everywhere satisfies rt_chain_wf and, fully connected, the
+   premise; the exploration evaluated by the kernel on it (originator = non-master endpoint of the bottom zone,
+   target = bottom zone; and target = zone 3 from zone 2) agrees with the theorems: all 12 (resp. 8) entitled
+   endpoints process, once *)
+Example C11_unbounded_nonvacuous :
+  let c := rt_mk_cfg (rt_chain_parents 6) [2; 2; 2; 2; 2; 2] in
+  let links := rt_related_pairs c in
+  rt_chain_wf c /\ rt_zone_of c 12 = Some 5 /\
+  rt_premise c links (rt_entitled_zones c 5 5) = true /\
+  rt_run_ok c links 5 12 (fun p => (length p =? 12) && forallb (fun e => rt_mem e p) (seq 1 12)) = true /\
+  rt_run_ok c links 3 6 (fun p => (length p =? 8) && forallb (fun e => rt_mem e p) (seq 1 8)) = true.
+Proof.
+  split; [apply rt_chain_wf_b_spec; vm_compute; reflexivity|].
+  vm_compute. repeat split.
+Qed.
 
 (* non-vacuity: the 2/2/2 chain, fully connected, event about an object of the bottom zone originating at its
    non-master endpoint: premise holds, all six endpoints process exactly once; and a step that persists *)
